@@ -53,7 +53,7 @@ def restart_histories(ctx):
 
 def crash_states(ctx):
     plan = [("KVGraphImpl_c2.cfg" if ctx.tier == "quick" else "KVGraphImpl_c3.cfg", None, None),
-            ("KVGraphImpl_sim.cfg", "num=%d" % (24 if ctx.tier == "quick" else 400), 9)]
+            ("KVGraphImpl_sim.cfg", "num=%d" % (24 if ctx.tier == "quick" else 250), 9)]
     out, seen = [], set()
     for cfg, sim, depth in plan:
         res = ctx.tlc("reopen", "KVGraphImpl", cfg, simulate=sim, depth=depth, timeout=1500, workers=(1 if sim else 8), count=(sim is None))
@@ -368,7 +368,7 @@ def _run(ctx):
     trivial = {i for i, h in enumerate(hs) if not any(storecmp.nstate(e["after"]) for e in h)}
     trivial -= set(ctx.rng.sample(sorted(trivial), len(trivial) // 20))
     nonempty = [i for i, h in enumerate(hs) if any(e["call"]["op"] == "Restart" and storecmp.nstate(e["after"]) for e in h)]
-    nfull = 16 if ctx.tier == "quick" else 200
+    nfull = 16 if ctx.tier == "quick" else 120
     full_badger = set(ctx.rng.sample(nonempty, min(nfull, len(nonempty))))
     nonempty = set(nonempty)
     for d in drivers(ctx):
@@ -379,7 +379,7 @@ def _run(ctx):
                 rreqs.append((d, i, False))
                 if i in full_badger:
                     rreqs.append((d, i, True))
-            elif i in nonempty and ctx.rng.random() < (0.5 if len(hs) < 5000 else 0.15):
+            elif i in nonempty and ctx.rng.random() < (0.5 if ctx.tier == "quick" else 0.08):
                 rreqs.append((d, i, True))
     routs = {}
     for d in drivers(ctx):
